@@ -30,6 +30,7 @@ type SeqCheck struct {
 	GenQuick    SeqModel
 	GenThorough SeqModel
 	SampleQuick int // states sampled in the quick tier (0 = all)
+	GenMore     []SeqModel // further bounded families explored completely in both tiers (small)
 	// E5: crafted initial stores x alphabet
 	CraftQuick    SeqModel
 	CraftThorough SeqModel
@@ -84,8 +85,14 @@ func (c *SeqCheck) Run(e *Env) (*Outcome, *Evidence, error) {
 	}
 	var obs []*Obs
 	var histories int
+	gens := []SeqModel{}
 	if gen.Name != "" {
-		g, err := e.runTLC("gen", "MC_Seq", gen.cfg(tlaSet(loadAsIsDev()), "states", nil, nil), 12, 30*time.Minute)
+		gens = append(gens, gen)
+	}
+	gens = append(gens, c.GenMore...)
+	for gi, gen := range gens {
+		tag := fmt.Sprintf("e1%c", 'a'+gi)
+		g, err := e.runTLC("gen"+tag, "MC_Seq", gen.cfg(tlaSet(loadAsIsDev()), "states", nil, nil), 12, 30*time.Minute)
 		if err != nil {
 			return nil, nil, err
 		}
@@ -97,16 +104,20 @@ func (c *SeqCheck) Run(e *Env) (*Outcome, *Evidence, error) {
 			return nil, nil, err
 		}
 		total := len(states)
-		if !thorough && c.SampleQuick > 0 {
+		if !thorough && c.SampleQuick > 0 && gi == 0 {
 			states = sample(states, c.SampleQuick, rng)
 		}
-		o, ds, err := e.driveStates("e1", states, false, 16)
+		o, ds, err := e.driveStates(tag, states, false, 16)
 		if err != nil {
 			return nil, nil, err
 		}
 		obs = append(obs, o...)
 		histories += ds.Histories
-		cov["e1"] = map[string]any{"model": gen.Name, "bounds": gen.bounds(), "asis_states": total, "states_driven": len(states),
+		key := "e1"
+		if gi > 0 {
+			key = tag
+		}
+		cov[key] = map[string]any{"model": gen.Name, "bounds": gen.bounds(), "asis_states": total, "states_driven": len(states),
 			"steps": len(o), "exhaustive": len(states) == total, "wall_s": ds.Wall,
 			"asis_generated": g.Generated}
 	}
